@@ -156,6 +156,7 @@ def make_track(kind: str = "video", timescale: Optional[int] = None,
                subsamples: Optional[bool] = None, saio_version: int = 0, saiz_default: bool = True,
                default_base_is_moof: bool = True, base: Optional[str] = None,
                track_id: int = 1, start_number: int = 1, payload_size: int = 200, seed: int = 0,
+               payload_bytes: Optional[Sequence[Optional[int]]] = None,
                with_mehd: bool = True, traf_order: str = "trun_first",
                sample_durations_in: str = "trun", trun_data_offset: bool = True,
                trun_first_sample_flags: Optional[bool] = None, trun_cto: bool = False,
@@ -190,6 +191,9 @@ def make_track(kind: str = "video", timescale: Optional[int] = None,
         'explicit-mdat'    tfhd base_data_offset = absolute file position of the first payload byte and a
                            trun *without* data_offset field (clear tracks only: saio offsets are unsigned)
     payload_size         average sample size in bytes (sizes are pseudo-random in [½, 1½]·payload_size)
+    payload_bytes        per segment: exact total mdat payload length (None: from payload_size); split
+                         pseudo-randomly over the segment's samples (each >= 5 bytes) – for size classes
+                         (segments around a reader's cache window, very large segments)
     traf_order           'trun_first': tfhd [tfdt] trun saiz saio senc; 'senc_first': tfhd [tfdt] saiz saio senc trun;
                          or (encrypted tracks) any comma separated permutation of trun,saiz,saio,senc with an
                          optional `piff` (a stored PIFF uuid clone of the senc), e.g. 'trun,senc,saiz,saio'
@@ -240,6 +244,13 @@ def make_track(kind: str = "video", timescale: Optional[int] = None,
         n = samples_per_segment[k]
         durs = _split(durations[k], n)
         sizes = [max(5, rng.randrange(max(1, payload_size // 2), payload_size * 3 // 2 + 1)) for _ in range(n)]
+        if payload_bytes is not None and payload_bytes[k] is not None:
+            total = payload_bytes[k]
+            assert total >= 5 * n, "payload_bytes too small for the number of samples"
+            # random split of `total` into n parts of at least 5 bytes
+            cuts = sorted(rng.randrange(0, total - 5 * n + 1) for _ in range(n - 1))
+            edges = [0] + cuts + [total - 5 * n]
+            sizes = [5 + edges[i + 1] - edges[i] for i in range(n)]
         payload = b"".join(_sample_bytes(rng, kind, sizes[i], i == 0) for i in range(n))
         mdat = box("mdat", payload)
 
